@@ -163,6 +163,21 @@ def fn_shape(fn, F):
             t = fn.blocks[b]['term']
             if t['k'] == 'switch' and any(s not in comp for s in fn.succ(b)):
                 lines.append('exit on %s' % shorten_vars(cn.c(norm(P.operand(t['op'], b, len(fn.blocks[b]['stmts']))))))
+    # every two-way decision (the alternatives of a merged value are only as good as the test that selects them)
+    in_loop_exit = set()
+    for comp in loops:
+        for b in comp:
+            t = fn.blocks[b]['term']
+            if t['k'] == 'switch' and any(s not in comp for s in fn.succ(b)):
+                in_loop_exit.add(b)
+    conds = []
+    for b, bl in enumerate(fn.blocks):
+        t = bl['term']
+        if t['k'] == 'switch' and b not in in_loop_exit and not bl.get('cleanup'):
+            c = shorten_vars(cn.c(norm(P.operand(t['op'], b, len(bl['stmts'])))))
+            if not c.startswith('discr('):
+                conds.append('test %s' % c)
+    lines += sorted(conds)
     txt = '\n'.join(lines)
     txt = re.sub(r'\bSM[29]_', 'SMx_', txt)
     return txt
